@@ -580,15 +580,22 @@ impl RunState {
             }
             // putsp
             0x24 => {
-                'string: for addr in self.reg(0).. {
+                // Address wraps around at the end of memory
+                let mut addr = self.reg(0);
+                loop {
                     let chr_raw = self.mem(addr);
-                    for chr in [chr_raw >> 8, chr_raw & 0xFF] {
-                        let chr_ascii = chr as u8 as char;
-                        if chr_ascii == '\0' {
-                            break 'string;
-                        }
-                        Output::Normal.print(chr_ascii);
+                    // Writing terminates with a word of 0x0000
+                    if chr_raw == 0 {
+                        break;
                     }
+                    // Bits [7:0] are written first, then bits [15:8], which are 0x00 in the last
+                    // word of a string with an odd number of characters
+                    for chr in [chr_raw & 0xFF, chr_raw >> 8] {
+                        if chr != 0 {
+                            Output::Normal.print(chr as u8 as char);
+                        }
+                    }
+                    addr = addr.wrapping_add(1);
                 }
                 stdout().flush().unwrap();
             }
